@@ -434,6 +434,12 @@ def GridsNodup : Op → Prop
   | .create _ _ none (some g) => g.Nodup
   | _ => True
 
+instance (e : Env) (op : Op) : Decidable (GridsKnown e op) := by
+  unfold GridsKnown; split <;> infer_instance
+
+instance (op : Op) : Decidable (GridsNodup op) := by
+  unfold GridsNodup; split <;> infer_instance
+
 /-- the global index `d` lies in the block of the variable with id `i` -/
 def owns (s : State) (i d : Nat) : Prop :=
   ∃ b, numberOf s.numbers i = some b ∧ cum s.sizes b ≤ d ∧ d < cum s.sizes (b + 1)
